@@ -696,6 +696,13 @@ def run_static_slices(rec, F):
         if fn.crate not in ("laythe_vm", "laythe_core", "laythe_lib") or "::test" in fn.path:
             continue
         for bi, t in fn.calls():
+            if re.search(r"core::slice::<impl \[T\]>::get$", t["f"]) and "Range" in t["g"]:
+                # the checked form: an out-of-range bound answers None
+                d0 = str(sem.desc_operand(fn, t["args"][0]))
+                if "const" in d0 or "promoted" in d0 or "UNDEFINED" in d0:
+                    n += 1
+                    rec.inst(R, "%s: checked .get(range) on a constant array" % fn.name, ok=True, loc=loc_of(t["sp"]))
+                continue
             if not re.search(r"core::array::<impl core::ops::index::Index<I> for \[T; N\]>::index$", t["f"]):
                 continue
             if "Range" not in t["g"]:
@@ -726,7 +733,7 @@ def run_static_slices(rec, F):
             rec.inst(R, "%s:[T;%s][..bound]" % (fn.name, m.group(1) if m else "N"), ok=ok, loc=loc_of(t["sp"]))
             if not ok:
                 rec.finding(R, "F4.slice/%s" % fn.path, "%s slices a %s-element constant array with a run-time bound and no dominating range test: a function needing more slots panics the host" % (fn.name, m.group(1) if m else "fixed"), loc=loc_of(t["sp"]), fn=fn.path)
-    rec.floor(R, "run-time slices of constant arrays", n, 3)
+    rec.floor(R, "run-time slices of constant arrays", n, 2)
 
 
 def run_todo_sites(rec, F):
